@@ -220,3 +220,12 @@ def run_shard(tier, shard, res: Result):
         if i % 487 == 0:
             st, bi, plan_ = cases[i]
             res.sample({"state": list(st), "body": BODIES[bi], "faults": [list(p) for p in plan_]}, 3)
+
+
+def replay(witness, res: Result):
+    st = witness["state"]
+    state = (st["old"], st["new"] if not st["old==new"] else "same", st["other"], st["old==new"])
+    from ..core import unjson_bytes
+    body = unjson_bytes(witness["body"])
+    bi = BODIES.index(body) if body in BODIES else 0
+    run_case((state, bi, tuple(tuple(p) for p in witness["faults"])), res)
